@@ -9,8 +9,7 @@
 
    The full-strength statement of the property is still FALSE of the current code in places.  It is kept visible
    below ([fit_pure_full], [unfitted_raises_full_biv], [def_before_use_full]) next to its refutation with a concrete
-   witness (each witness is replayed on the real library by the check: findings F7, F8, F9b, F22, F23, F26, F29,
-   F30) and next to the strongest statement that does hold.
+   witness (each witness is replayed on the real library by the check: findings F7, F8, F9b, F22, F26, F29) and next to the strongest statement that does hold.
    History: F5 (constant overrides never cleared), F6 (TruncatedGaussian remembered data-derived bounds), F12
    (GaussianKDE.log_probability_density raised) and F24 (<Subclass>.from_dict) were reported by this check and are
    FIXED in /repo; their refutations (C19_fit_pure_full_refuted for all 8 families, C19_fit_pure_tg_refuted,
@@ -276,35 +275,33 @@ Theorem C19_unfitted_raises_gm : forall a k x q n g,
     new_gm a k = Ok x ->
     query_gm x q n g = (x, g, ObsErr NotFitted) /\ to_dict_gm x = Err NotFitted.
 Proof. exact unfitted_raises_gm. Qed.
-(* Clayton / Frank / Gumbel: the guard is `not self.theta` (theta None or 0); every query BUT sample *)
+(* Clayton / Frank / Gumbel: the guard is `not self.theta` (theta None or 0); every query, and sample since the F23 fix *)
 Theorem C19_unfitted_raises_biv : forall b t k n g,
-    b_cls b = Some t -> t <> Independence -> theta_unset b = true -> k <> BSample ->
+    b_cls b = Some t -> t <> Independence -> theta_unset b = true -> b_init b = true ->
     query_biv b k n g = (b, g, ObsErr NotFitted).
 Proof. exact unfitted_raises_biv. Qed.
-(* the full statement for the bivariate classes ... *)
+(* the full statement for the bivariate classes: every query and sample of a never-fitted copula raises NotFittedError and
+   leaves the copula and every generator untouched.  (Refuted before the F23 fix: sample() compared tau = None with 1 and
+   raised TypeError.)  to_dict() is not a query: it serialises the unfitted copula (theta = tau = None), which C14 requires
+   to round-trip to an unfitted copula (C14_unfitted_biv_roundtrip). *)
 Definition unfitted_raises_full_biv : Prop :=
   forall t rs k n g, t <> Independence ->
-    snd (query_biv (mkB (Some t) JNone JNone rs true) k n g) = ObsErr NotFitted.
-(* ... is REFUTED: sample() compares tau = None with 1 (TypeError, F23).  to_dict() is not a query: it serialises the unfitted
-   copula (theta = tau = None), which C14 requires to round-trip to an unfitted copula (C14_unfitted_biv_roundtrip) *)
-Theorem C19_unfitted_biv_sample_refuted : forall t rs n g,
+    query_biv (mkB (Some t) JNone JNone rs true) k n g = (mkB (Some t) JNone JNone rs true, g, ObsErr NotFitted).
+Theorem C19_unfitted_raises_full_biv : unfitted_raises_full_biv.
+Proof. intros t rs k n g Ht. apply (unfitted_raises_biv _ t); auto. Qed.
+Theorem C19_unfitted_biv_sample : forall t rs n g,
     query_biv (mkB (Some t) JNone JNone rs true) BSample n g
-    = (mkB (Some t) JNone JNone rs true, g, ObsErr TypeErr).
-Proof. exact unfitted_biv_sample_refuted. Qed.
+    = (mkB (Some t) JNone JNone rs true, g, ObsErr NotFitted).
+Proof. exact unfitted_biv_sample. Qed.
 Theorem C19_unfitted_biv_to_dict_serialises : forall t rs i,
     to_dict_biv (mkB (Some t) JNone JNone rs i)
     = Ok (JDict [("copula_type", JStr (ctype_NAME t)); ("theta", JNone); ("tau", JNone)]).
 Proof. exact unfitted_biv_to_dict_refuted. Qed.
-Theorem C19_unfitted_raises_full_biv_refuted : ~ unfitted_raises_full_biv.
-Proof.
-  intros H. pose proof (H Clayton None BSample 1%nat [] ltac:(discriminate)) as H1.
-  rewrite unfitted_biv_sample_refuted in H1. discriminate H1.
-Qed.
-(* with theta = 0 (Clayton fitted on tau = 0 data, F14a) sample() does raise NotFittedError -- after consuming the generator *)
+(* with theta = 0 (Clayton fitted on tau = 0 data, F14a) sample() raises NotFittedError before drawing (before the fix: after
+   consuming two draws of the generator) *)
 Theorem C19_unfitted_biv_sample_theta0 : forall t n g,
-    t <> Independence ->
     query_biv (mkB (Some t) (JNum 0) (JNum 0) None true) BSample n g
-    = (mkB (Some t) (JNum 0) (JNum 0) None true, mkDraw (JStr "biv.sample") n :: g, ObsErr NotFitted).
+    = (mkB (Some t) (JNum 0) (JNum 0) None true, g, ObsErr NotFitted).
 Proof. exact unfitted_biv_sample_theta0. Qed.
 
 (* ===================================================================================================== *)
@@ -415,7 +412,7 @@ Proof. vm_compute. reflexivity. Qed.
 (* the public query methods whose first statement is self.check_fit() *)
 Theorem C19_check_fit_first :
   check_fit_first =
-  [("Bivariate", "percent_point");
+  [("Bivariate", "percent_point"); ("Bivariate", "sample");
    ("Clayton", "cumulative_distribution"); ("Clayton", "partial_derivative"); ("Clayton", "percent_point"); ("Clayton", "probability_density");
    ("Frank", "cumulative_distribution"); ("Frank", "partial_derivative"); ("Frank", "percent_point"); ("Frank", "probability_density");
    ("GaussianKDE", "cumulative_distribution"); ("GaussianKDE", "log_probability_density"); ("GaussianKDE", "percent_point");
@@ -427,17 +424,17 @@ Theorem C19_check_fit_first :
    ("ScipyModel", "cumulative_distribution"); ("ScipyModel", "log_probability_density"); ("ScipyModel", "percent_point");
    ("ScipyModel", "probability_density"); ("ScipyModel", "sample");
    ("Univariate", "cumulative_distribution"); ("Univariate", "log_probability_density"); ("Univariate", "percent_point");
-   ("Univariate", "probability_density"); ("Univariate", "sample"); ("Univariate", "to_dict")].
+   ("Univariate", "probability_density"); ("Univariate", "sample"); ("Univariate", "to_dict"); ("VineCopula", "sample")].
 Proof. vm_compute. reflexivity. Qed.
-(* ... and those that do not: the log-densities delegate to a guarded method; Bivariate.sample / to_dict are the
-   refuted case above (F23); VineCopula.sample raises AttributeError when unfitted (F30); VineCopula.to_dict of
-   an unfitted vine returns {type, vine_type, fitted: False} by design; Tree/Edge.to_dict are helpers *)
+(* ... and those that do not: the log-densities delegate to a guarded method; Bivariate.to_dict and VineCopula.to_dict of an
+   unfitted object serialise it by design (C14: unfitted models round-trip); Tree/Edge.to_dict are helpers.  Bivariate.sample and
+   VineCopula.sample moved to the list above with the F23 / F30 fixes (before: TypeError / AttributeError when unfitted) *)
 Theorem C19_no_check_fit_first :
   no_check_fit_first =
-  [("Bivariate", "log_probability_density"); ("Bivariate", "partial_derivative"); ("Bivariate", "sample"); ("Bivariate", "to_dict");
+  [("Bivariate", "log_probability_density"); ("Bivariate", "partial_derivative"); ("Bivariate", "to_dict");
    ("Edge", "to_dict");
    ("Independence", "cumulative_distribution"); ("Independence", "partial_derivative"); ("Independence", "probability_density");
-   ("Multivariate", "log_probability_density"); ("Tree", "to_dict"); ("VineCopula", "sample"); ("VineCopula", "to_dict")].
+   ("Multivariate", "log_probability_density"); ("Tree", "to_dict"); ("VineCopula", "to_dict")].
 Proof. vm_compute. reflexivity. Qed.
 (* the guards themselves *)
 Theorem C19_guard_shapes :
@@ -533,7 +530,7 @@ Print Assumptions C19_unfitted_raises_scipy.
 Print Assumptions C19_unfitted_raises_wrapper.
 Print Assumptions C19_unfitted_raises_gm.
 Print Assumptions C19_unfitted_raises_biv.
-Print Assumptions C19_unfitted_raises_full_biv_refuted.
+Print Assumptions C19_unfitted_raises_full_biv.
 Print Assumptions C19_get_instance_fresh.
 Print Assumptions C19_get_instance_replays_ctor.
 Print Assumptions C19_get_instance_no_store_args.
